@@ -160,6 +160,9 @@ func mainAnswer(r *rand.Rand, want int) Answer {
 				{`{"verdict":"MATCH" "evidence":"x"}`, "syntax-error"},
 				{`{'verdict':'MATCH','evidence':'x'}`, "single-quotes"},
 				{`{"result":{"verdict":"LIE","evidence":"nested"}}`, "nested-LIE"},
+				{good + "\n" + `{"verdict":"LIE","evidence":"second answer"}`, "second-top-level-object"},
+				{good + ` {"verdict":"SUSPICIOUS","evidence":"appended"}`, "second-top-level-object"},
+				{good + "\n" + `[{"verdict":"LIE"}]`, "second-top-level-value"},
 			}
 			m := misc[r.Intn(len(misc))]
 			return Answer{m.text, m.class, lblFault}
@@ -233,10 +236,12 @@ func sentAnswer(r *rand.Rand, want int) Answer {
 			{`The payload is safe.`, "prose-only"},
 			{`{"result":{"safe":false}}`, "nested-false"},
 			{`null`, "json-null"},
+			{`{"safe": true,"analysis":"clean"}` + "\n" + `{"safe": false,"analysis":"Injection Detected"}`, "second-top-level-object"},
+			{`{"safe":true} {"safe":false}`, "second-top-level-object"},
 		}
 		b := bad[r.Intn(len(bad))]
 		t, cls := b.text, b.class
-		if r.Intn(5) == 0 && t != "" {
+		if r.Intn(5) == 0 && t != "" && cls != "second-top-level-object" {
 			var d string
 			t, d = fence(r, t)
 			cls += "+" + d
